@@ -309,6 +309,10 @@ def engine_check(ctx, gens, facets, jobs=12, labels=None, selftests=None):
     if getattr(ctx, "replay", None):
         return replay_one(ctx, exe, facets, labels, jobs)
     tot = 0
+    only = os.environ.get("VERIF_GENS")        # development aid: run only the named generators (not used by MANIFEST commands)
+    if only:
+        gens = [g for g in gens if g["name"] in only.split(",")] or gens[:1]
+        selftests = None
     for g in gens:
         hist = os.path.join(ctx.out, g["name"] + ".ndjson")
         n = gen_histories(ctx, g["module"], g["cfg"], hist, workers=8, simulate=g.get("simulate"),
